@@ -957,6 +957,29 @@ fn gen_c17(rng: &mut Rng, thorough: bool) -> Case {
             }
         }
     }
+    // A third of the benches with two or more models: an output port shared by two models
+    // through a clone; the first connects a sink to it while the simulation runs and then tells
+    // the second, whose subsequent sends through its clone must reach that sink.
+    if n >= 2 && n_sinks >= 1 && rng.pct(33) {
+        let (i, j) = (0usize, 1usize);
+        cid += 1;
+        c.nodes[i].outs.push(vec![Edge { cid, target: Target::Sink(rng.usize(n_sinks) as u16), map: true, filter: None }]);
+        let q = (c.nodes[i].outs.len() - 1) as u8;
+        c.nodes[j].outs.push(vec![Edge { cid: 0, target: Target::Node(i as u16), map: false, filter: Some((255, q)) }]);
+        let pj = (c.nodes[j].outs.len() - 1) as u8;
+        cid += 1;
+        c.nodes[i].outs.push(vec![Edge { cid, target: Target::Node(j as u16), map: false, filter: None }]);
+        let go = (c.nodes[i].outs.len() - 1) as u8;
+        let ki = rng.usize(c.nodes[i].on.len());
+        let kj = rng.usize(c.nodes[j].on.len());
+        cid += 1;
+        c.nodes[i].on[ki].push(Op::Connect { port: q, target: 10_000 + rng.usize(n_sinks) as u16, cid });
+        c.nodes[i].on[ki].push(Op::Send { port: go, kind: kj as u8 });
+        c.nodes[j].on[kj].push(Op::Send { port: pj, kind: 0 });
+        if rng.pct(50) {
+            c.nodes[i].on[ki].push(Op::Send { port: q, kind: 0 });
+        }
+    }
     let kinds = c.nodes[0].on.len().max(1) as u64;
     let mut script = Vec::new();
     for _ in 0..rng.range(3, if thorough { 12 } else { 9 }) {
